@@ -56,6 +56,12 @@ static char *fill(size_t n, char ch, const char *suffix) {   /* n bytes total en
 
 static void enumerate(void) {
   c07_case c; hbuf b = {0};
+  /* custom texts outside the qmail-queue.8 interface (first byte neither D nor Z): NUL, 'K' */
+  for (int k = 0; k < 2; k++) {
+    if (!c07_mine()) continue;
+    c07_defaults(&c, 'M', k); free(c.qq); c.qq = strdup(k ? "82,0,4b6f6b2066616b65" : "82,0,007879");
+    hbuf_reset(&b); msg(&b, 0, "x\n", 2, "s@x", 3, 1, RC_OK); emit(&c, &b); c07_free(&c);
+  }
   /* (A) every exit status of the queue program, unix and dos framing; crash by signal; custom text on 82 (and on others) */
   for (int e = 0; e < 256; e++) for (int dos = 0; dos < 2; dos++) {
     if (!c07_mine()) continue;
@@ -236,7 +242,7 @@ static void randoms(int nrandom, uint64_t seed) {
         b.p[h_below(b.n)] = alt[h_below(sizeof alt)];
       }
       if (mu == 3 && b.n) { size_t p = h_below(b.n); memmove(b.p + p, b.p + p + 1, b.n - p - 1); b.n--; }
-      if (mu == 4) { unsigned char x = "0:,9/"[h_below(5)]; size_t p = h_below(b.n + 1); ADDS(&b, ""); memmove(b.p + p + 1, b.p + p, b.n - 1 - p); b.p[p] = x; }
+      if (mu == 4) { unsigned char x = "0:,9/"[h_below(5)]; size_t p = h_below(b.n + 1); hbuf_add(&b, &x, 1); memmove(b.p + p + 1, b.p + p, b.n - 1 - p); b.p[p] = x; }
       if (h_below(25) == 0) c.wfault = h_below(6);
       c.chunk = (int[]){ 0, 0, 1, 3, 100 }[h_below(5)];
       emit(&c, &b); c07_free(&c);
